@@ -128,12 +128,38 @@ def r08_3(ctx) -> None:
     rets = [r.value for r in fn_nodes(hm) if isinstance(r, ast.Return)]
     ok = len(rets) == 1
     t = Tm.of(hm, rets[0]) if ok else None
-    pp = hm.pos_params  # (self, ciphertext, aad, iv, key) - by position: parameters of a private method may be renamed
-    if len(pp) != 5:
+    # (self, ciphertext, aad, iv, key): the parameters of a private method may be renamed, re-ordered or made keyword-only - the roles are read off
+    # the MAC term itself: the assignment of the four parameters under which it is HMAC(key, aad || iv || ciphertext || AL)[:key_len]
+    import itertools as _it
+    a_ = hm.node.args
+    allp = [x.arg for x in list(a_.posonlyargs) + list(a_.args) + list(a_.kwonlyargs)]
+    if len(allp) != 5 or a_.vararg or a_.kwarg:
         raise AnalysisError("CBCHS2EncModel._hmac no longer takes (ciphertext, aad, iv, key)")
-    sn_, p_ct, p_aad, p_iv, p_key = pp
-    want = ("SLICE", ("CALL", "digest", (("CALL", "new", (L(p_key), C(L(p_aad), L(p_iv), L(p_ct), ("U64BITS", L(p_aad))), L(f"{sn_}.hash_alg"))),)), None, L(f"{sn_}.key_len"))
-    ok = ok and match(t, want)
+    sn_ = allp[0]
+    roles = None
+    for perm in ([tuple(allp[1:])] + [q for q in _it.permutations(allp[1:]) if q != tuple(allp[1:])]):
+        p_ct, p_aad, p_iv, p_key = perm
+        want = ("SLICE", ("CALL", "digest", (("CALL", "new", (L(p_key), C(L(p_aad), L(p_iv), L(p_ct), ("U64BITS", L(p_aad))), L(f"{sn_}.hash_alg"))),)), None, L(f"{sn_}.key_len"))
+        if ok and match(t, want):
+            roles = perm
+            break
+    ok = ok and roles is not None
+    pos_names = [x.arg for x in list(a_.posonlyargs) + list(a_.args)][1:]
+
+    def _bound(call: ast.Call):
+        """-> the actual arguments in role order (ciphertext, aad, iv, key), None when the call does not bind all four exactly once"""
+        got = {}
+        for i_, x_ in enumerate(call.args):
+            if isinstance(x_, ast.Starred) or i_ >= len(pos_names):
+                return None
+            got[pos_names[i_]] = x_
+        for k_ in call.keywords:
+            if k_.arg is None or k_.arg in got or k_.arg not in allp[1:]:
+                return None
+            got[k_.arg] = k_.value
+        if roles is None or set(got) != set(roles):
+            return None
+        return [got[r_] for r_ in roles]
     ctx.check(ok, "R08.3", hm, hm.node, hm.short, f"CBC-HMAC tag is not HMAC(MAC_KEY, AAD || IV || ciphertext || AL)[:key_len] with AL the 64-bit big-endian bit length of the AAD: {show(t) if t else ''}",
               show(t) if t else "", construct="CBC-HMAC MAC input and truncation")
     for m in ("encrypt", "decrypt"):
@@ -147,9 +173,10 @@ def r08_3(ctx) -> None:
             r = resolve_all(eng, fn, e)
             return r[0] if len(r) == 1 else None
         calls = [n for n in fn_nodes(fn) if isinstance(n, ast.Call) and norm(n.func) == f"{sn}._hmac"]
-        ok2 = len(calls) == 1 and len(calls[0].args) == 4
+        bound = _bound(calls[0]) if len(calls) == 1 else None
+        ok2 = bound is not None
         if ok2:
-            a = [R1(x) for x in calls[0].args]
+            a = [R1(x) for x in bound]
             ok2 = a[1] == "aad" and a[2] == "iv" and a[3] == f"{cekp}[:{sn}.key_len]"
             if m == "decrypt":
                 ok2 = ok2 and a[0] == "ciphertext"
